@@ -52,9 +52,11 @@ def build_model(spec: Dict[str, Any]) -> List[bytes]:
     else:
         doc = copy.deepcopy(doc)
     if spec.get("n_edits"):
-        doc, _ = models.evolve(doc, random.Random(spec["edits_seed"]), spec["n_edits"])
+        doc, _ = models.evolve(doc, random.Random(spec["edits_seed"]), spec["n_edits"], spec.get("for_plugin"))
         if not doc["requests"] or not doc["notifications"]:
             raise core.HarnessError("model generator produced a model without requests/notifications")
+    if spec.get("permute_seed") is not None:
+        doc = models.permuted(doc, random.Random(spec["permute_seed"]))
     parts = [doc]
     if spec.get("split", 1) > 1:
         parts = models.split(doc, random.Random(spec["split_seed"]), spec["split"])
@@ -68,6 +70,8 @@ def gen_model_spec(r: random.Random, plugin: str, tier: str, allow_full: bool = 
         spec: Dict[str, Any] = {"base": "full"}
     else:
         spec = {"base": "sub", "sub_seed": r.randrange(2**40), "lo": 2, "hi": 7 if plugin != "testdata" else 4}
+    if plugin == "testdata":
+        spec["for_plugin"] = "testdata"
     if r.random() < 0.6:
         spec["n_edits"] = r.randint(1, 6)
         spec["edits_seed"] = r.randrange(2**40)
@@ -84,6 +88,10 @@ def variant_of(spec: Dict[str, Any], r: random.Random) -> Dict[str, Any]:
     """A *different* model M' related to M (what an earlier checkout of the model would be)."""
     v = dict(spec)
     x = r.random()
+    if x < 0.22:
+        # the very same declarations in another order
+        v["permute_seed"] = r.randrange(2**40)
+        return v
     if x < 0.5:
         v["n_edits"] = spec.get("n_edits", 0) + r.randint(1, 4)
         v["edits_seed"] = r.randrange(2**40)
